@@ -453,9 +453,14 @@ func (p *Prog) errProp(fn *ssa.Function, call *ssa.Call) errPropResult {
 		checks = append(checks, check{b, nn})
 		checkBlocks[b] = true
 	}
+	efi := p.Info(fn)
 	retOK := func(r *ssa.Return) bool {
 		for _, res := range r.Results {
 			if isErrorType(res.Type()) && derived[res] {
+				return true
+			}
+			// the failure is reported by another error that is definitely non-nil
+			if isErrorType(res.Type()) && efi.errIsNil(res, r, 0) == no {
 				return true
 			}
 		}
